@@ -341,6 +341,9 @@ orc_compiler_powerpc_assemble (OrcCompiler *compiler)
     for(i=0;i<compiler->n_constants;i++) {
       compiler->constants[i].label = 0;
     }
+    /* the labels handed to the constants are handed out again in the second
+     * pass: without this, 19 pooled constants reach label 40 = ORC_N_LABELS */
+    compiler->n_labels = label_leave + 1;
   }
 
   if (compiler->error) return;
